@@ -1,22 +1,27 @@
 (* Hand-written model of rpylib/distribution/pairing.py: StatesManager.project_index_to_state_increment
+   (the repaired method: a restart resumes after the last LOGGED state)
 
-     if x == max_logged: self._last_projected_index = -1
+     if x == max_logged: self._last_projected_index = self._last_logged_index
      xx = max(x, self._last_projected_index + 1)
      while xx <= self.max_frontier_indices:
          if not is_outside(state_increment := project(xx)):
              self._last_projected_index = xx
+             if x < max_logged or max_logged < 0: self._last_logged_index = xx
              return state_increment, False
          xx = xx + 1
      self._last_projected_index = xx
      return self._sample_frontier_state_increment(), True
 
    over an abstract enumeration: project = self.pairing.project (index -> state increment),
-   outside = self.is_outside, maxf = self.max_frontier_indices.  The state of the machine is
-   _last_projected_index (initially -1).  The random frontier draw returned on exhaustion is not
-   modelled: exhaustion is (None, true). *)
+   outside = self.is_outside, maxf = self.max_frontier_indices.  The state of the machine is the pair
+   (_last_projected_index, _last_logged_index), initially (-1, -1).  x is the RANK of the requested state
+   among the admissible ones (InversionMethod: number of states returned before it), not a pairing index.
+   The random frontier draw returned on exhaustion is not modelled: exhaustion is (None, true). *)
 From Coq Require Import ZArith List Bool.
 Import ListNotations.
 Open Scope Z_scope.
+
+Definition sm_init : Z * Z := (-1, -1).
 
 Section StatesManager.
   Variable State : Type.
@@ -32,31 +37,36 @@ Section StatesManager.
     | S k => if outside (project xx) then sm_search k (xx + 1) else (Some xx, xx)
     end.
 
-  (* one call, returning the index whose state is returned (None = exhausted) and the new state *)
-  Definition sm_step_index (last x max_logged : Z) : option Z * Z :=
-    let last0 := if x =? max_logged then -1 else last in
+  (* one call, returning the index whose state is returned (None = exhausted) and the new state
+     st = (_last_projected_index, _last_logged_index) *)
+  Definition sm_step_index (st : Z * Z) (x max_logged : Z) : option Z * (Z * Z) :=
+    let last0 := if x =? max_logged then snd st else fst st in
     let xx := Z.max x (last0 + 1) in
-    sm_search (Z.to_nat (maxf + 1 - xx)) xx.
+    let r := sm_search (Z.to_nat (maxf + 1 - xx)) xx in
+    match fst r with
+    | Some _ => (fst r, (snd r, if (x <? max_logged) || (max_logged <? 0) then snd r else snd st))
+    | None => (None, (snd r, snd st))
+    end.
 
-  (* one call as the code returns it: ((state increment, break flag), new _last_projected_index) *)
+  (* one call as the code returns it: ((state increment, break flag), new state) *)
   Definition sm_lift (o : option Z) : option State * bool :=
     match o with Some i => (Some (project i), false) | None => (None, true) end.
-  Definition sm_step (last x max_logged : Z) : (option State * bool) * Z :=
-    let r := sm_step_index last x max_logged in (sm_lift (fst r), snd r).
+  Definition sm_step (st : Z * Z) (x max_logged : Z) : (option State * bool) * (Z * Z) :=
+    let r := sm_step_index st x max_logged in (sm_lift (fst r), snd r).
 
   (* a history of calls (x, max_logged) *)
-  Fixpoint sm_run_index (last : Z) (calls : list (Z * Z)) : list (option Z) :=
+  Fixpoint sm_run_index (st : Z * Z) (calls : list (Z * Z)) : list (option Z) :=
     match calls with
     | [] => []
-    | c :: r => let s := sm_step_index last (fst c) (snd c) in fst s :: sm_run_index (snd s) r
+    | c :: r => let s := sm_step_index st (fst c) (snd c) in fst s :: sm_run_index (snd s) r
     end.
-  Fixpoint sm_run (last : Z) (calls : list (Z * Z)) : list (option State * bool) :=
+  Fixpoint sm_run (st : Z * Z) (calls : list (Z * Z)) : list (option State * bool) :=
     match calls with
     | [] => []
-    | c :: r => let s := sm_step last (fst c) (snd c) in fst s :: sm_run (snd s) r
+    | c :: r => let s := sm_step st (fst c) (snd c) in fst s :: sm_run (snd s) r
     end.
 
-  (* the calls InversionMethod makes: x = 0, 1, ..., n-1 with max_logged = ml x *)
+  (* the calls x = 0, 1, ..., n-1 with max_logged = ml x *)
   Definition sm_incr_calls (ml : Z -> Z) (n : nat) : list (Z * Z) :=
     map (fun k => (Z.of_nat k, ml (Z.of_nat k))) (seq 0 n).
 End StatesManager.
